@@ -597,7 +597,10 @@ def run_history(drv, hist, modelled, ctx=None, verbose=False):
         if spec == 'bad-op':
             raise lean.LeanError('driver does not know: ' + line)
         exp_dig, exp_res = spec.split(' ', 1)
-        model = drv.ask('model %d %s %s' % (bi, hist.get('variant', '-'), line)) if (st['op'] in modelled or '*' in modelled) else None
+        is_modelled = st['op'] in modelled or '*' in modelled
+        model = drv.ask('model %d %s %s' % (bi, hist.get('variant', '-'), line)) if is_modelled else None
+        model_req = drv.ask('modelreq %s %s' % (hist.get('variant', '-'), line)) if is_modelled else None
+        log_from = len(ifaces[k].log)
         try:
             ret = op.call(conns[k], tok)
             try:
@@ -638,16 +641,22 @@ def run_history(drv, hist, modelled, ctx=None, verbose=False):
         if model is not None:
             if obs.startswith('cc:'):
                 tag = 'CompletionCodeError:' + obs[3:]
-            elif obs in ('py:DecodingError', 'py:EncodingError'):
+            elif obs in ('py:DecodingError', 'py:EncodingError', 'py:NotSupportedError'):
                 tag = obs[3:]
             else:
                 tag = obs
-            if ' ' in model:
-                m_ok = model == '%s %s' % (now[bi], obs)
-            else:       # the model raised: same exception, BMC untouched (any non-library exception matches any other)
-                m_ok = (model == tag or (model.startswith('py:') and tag.startswith('py:'))) and now[bi] == digests[bi]
-            if not m_ok and out.disagree is None:
-                out.disagree = {'what': st['op'], 'step': idx, 'model': model, 'code': '%s %s' % (now[bi], obs),
+            m_dig, m_res = model.split(' ', 1)
+            # return value / exception (any non-library exception matches any other) and BMC state afterwards
+            m_ok = (m_res == obs or m_res == tag or (m_res.startswith('py:') and tag.startswith('py:'))) and m_dig == now[bi]
+            # the request(s) the real code put on the wire against the model's single request
+            sent = ['%d %d %d %s' % (e[0], e[1], e[2], e[3] or '-') for e in ifaces[k].log[log_from:]]
+            want = [model_req] if (model_req and model_req[0].isdigit()) else []
+            r_ok = sent == want
+            if ctx is not None:
+                ctx.count('request_bytes_compared')
+            if not (m_ok and r_ok) and out.disagree is None:
+                out.disagree = {'what': st['op'] + ('' if r_ok else ':request'), 'step': idx,
+                                'model': '%s | requests %s' % (model, want), 'code': '%s %s | requests %s' % (now[bi], obs, sent),
                                 'explained_by': viol[0] if viol else None}
         digests = now
         if viol:
